@@ -20,13 +20,13 @@ RULE = ("records leg: every bin table of BT(3,B,{1,2,3}) (one-bp genomes exclude
         "bg2 / tabix aggregator / cload tabix on files holding all edge records, plus one file per invalid record. Oracle: linear "
         "scan ref_bin_of after the stated mirroring. Non-trivial: the record is valid and not on the first bin of both anchors, or "
         "must be refused. Distinct by construction.")
-BOUNDS = {"quick": "records: BT(3,4,W) (678 tables); refusals: full 16 option vectors on tables with <=2 bins, 4 vectors for 3 bins, 1 of 4 (rotating) above; loaders: BTrep(3,4) tables with <= 3 chromosomes",
-          "thorough": "records: BT(3,5,W); refusals as quick; every valid record also submitted alone on tables with <=4 bins; loaders: BTrep(3,5)"}
+BOUNDS = {"quick": "records: BT(3,4,W) (678 tables); refusals: full 16 option vectors on tables with <=2 bins, 4 vectors for 3 bins, 1 of 4 (rotating) above; loaders: BTrep(3,4) tables with <= 3 chromosomes + binsizes: every bin size 1..512 x anchors on the first/middle/last base of each of 41 bins, zero- and one-based; chromosome columns also as categoricals in four category orders",
+          "thorough": "records: BT(3,5,W); refusals as quick; every valid record also submitted alone on tables with <=4 bins; loaders: BTrep(3,5) + binsizes: every bin size 1..4096 x anchors on the first/middle/last base of each of 41 bins, zero- and one-based; chromosome columns also as categoricals in four category orders"}
 ASSUMPTIONS = ["a record with one unlisted chromosome AND an out-of-range position on the other side may be dropped or rejected",
                "the tabix loader is fed upper-triangular, position-sorted input as it requires; for streaming loaders 'rejected' means: "
                "the run fails, or the record is not counted in any pixel",
                "pairix loader not exercised (pypairix not installed)"]
-EXPECT_CLASSES = {"*": ["rec:kept", "rec:reflected", "rec:dropped-unknown", "rec:dropped-lower", "rec:refused", "loader:cload-pairs",
+EXPECT_CLASSES = {"*": ["chunk:categorical-chromosomes", "binsizes", "rec:kept", "rec:reflected", "rec:dropped-unknown", "rec:dropped-lower", "rec:refused", "loader:cload-pairs",
                         "loader:load-coo", "loader:load-bg2", "loader:tabix", "loader:tabix-schedule"]}
 
 TRIL = ["reflect", "drop", "raise", None]
@@ -53,6 +53,11 @@ def units(tier):
             yield {"leg": "loaders", "B": B, "k": k}
     for ti in (0, 1, 2):
         yield {"leg": "tabix-sched", "t": ti}
+    # every bin size 1..512 (thorough 4096): anchors on the first and last base of each of 41 bins - the division that assigns a
+    # position to its bin must be exact at every multiple of every bin size, not only for the widths 1..3 of the table alphabet
+    top = 4096 if tier == "thorough" else 512
+    for lo in range(1, top + 1, 32):
+        yield {"leg": "binsizes", "lo": lo, "hi": min(top + 1, lo + 32)}
 
 
 # ---- reference ---------------------------------------------------------------------------------
@@ -188,6 +193,32 @@ def _records_table(R, table, flavour, tier, only, tindex=0):
                             R.mismatch("record-in-wrong-pixel:integer-chromosome-ids", innerI, f"differences (row, pixel)={bad}")
                     except Exception as ex:
                         R.mismatch("valid-chunk-raises:" + type(ex).__name__, innerI, f"{ex!s:.300}")
+                # -- the same chunk with the chromosome columns given as pandas categoricals whose category order is NOT the table order
+                #    (what astype('category') or a reader with dtype=category produces): names, not codes, identify a chromosome
+                for cat in ("sorted-listed", "reversed-listed", "sorted-all", "table-order-plus-unused"):
+                    innerC = {"table": tname, "names": flavour, "opt": opt, "chunk": "all-valid:categorical-chromosomes:" + cat}
+                    if sided or not (only is None or only == innerC):
+                        continue
+                    R.c["transitions"] += 1
+                    R.c["evaluations"] += 1
+                    R.c["nontrivial"] += 1
+                    R.classes["chunk:categorical-chromosomes"] += 1
+                    okC = [k for k in okidx if not (cat.endswith("-listed") and exp[k][0] == "dropped-unknown")]
+                    recs = [allrecs[k] for k in okC]
+                    fr = _frame(recs, tags=False)
+                    cats = {"sorted-listed": sorted(names), "reversed-listed": list(names)[::-1], "sorted-all": sorted(names + [UNKNOWN]),
+                            "table-order-plus-unused": list(names) + ["zz_unused", UNKNOWN]}[cat]
+                    fr["chrom1"] = pd.Categorical(fr["chrom1"], categories=cats)
+                    fr["chrom2"] = pd.Categorical(fr["chrom2"], categories=cats)
+                    try:
+                        out = san(fr)
+                        gotC = {int(ix): (int(b1), int(b2)) for ix, b1, b2 in zip(out.index, out["bin1_id"], out["bin2_id"])}
+                        wantC = {pos: (exp[k][1], exp[k][2]) for pos, k in enumerate(okC) if exp[k][0] == "kept"}
+                        if gotC != wantC:
+                            bad = sorted(set(gotC.items()) ^ set(wantC.items()))[:6]
+                            R.mismatch("record-in-wrong-pixel:categorical-chromosome-columns", innerC, f"categories={cats} differences (row, pixel)={bad}")
+                    except Exception as ex:
+                        R.mismatch("valid-chunk-raises:" + type(ex).__name__, innerC, f"{ex!s:.300}")
                 # -- the same chunk under other row labels (all equal, reversed); records told apart by their first position column
                 for lab in ("repeated", "reversed"):
                     innerL = {"table": tname, "names": flavour, "opt": opt, "chunk": "all-valid", "labels": lab}
@@ -768,8 +799,55 @@ def _tabix_sched(R, ti, tier, only):
         scratch.rm(d)
 
 
+def _binsizes(R, unit, only):
+    from cooler.create import aggregate_records, sanitize_pixels, sanitize_records
+    R.add("states")
+    R.add("traces")
+    for b in range(unit["lo"], unit["hi"]):
+        inner = {"binsize": b}
+        if only is not None and only != inner:
+            continue
+        n1 = 41
+        bins = [("chr2", i * b, (i + 1) * b if i < n1 - 1 else (i + 1) * b - b // 2) for i in range(n1)] + [("chr10", i * b, (i + 1) * b) for i in range(3)]
+        sizes = models.ref_chromsizes(bins)
+        bdf = build.bins_df(bins)
+        pos = sorted({p for (c, s0, e0) in bins if c == "chr2" for p in (s0, e0 - 1, (s0 + e0) // 2)})
+        want1 = [min(p // b, n1 - 1) for p in pos]                 # integer arithmetic: the bin containing p
+        recs = [("chr2", p, "chr10", (k * b) % sizes["chr10"]) for k, p in enumerate(pos)] + [("chr2", 0, "chr2", p) for p in pos]
+        want = [(w, n1 + ((k * b) % sizes["chr10"]) // b) for k, w in enumerate(want1)] + [(0, w) for w in want1]
+        R.ev(len(recs), len(recs))
+        R.add("transitions")
+        R.cls("binsizes")
+        for ob in (0, 1):
+            try:
+                san = sanitize_records(bdf, schema="pairs", decode_chroms=True, is_one_based=bool(ob), tril_action="reflect", sort=False, validate=True)
+                out = san(_frame([(r[0], r[1] + ob, r[2], r[3] + ob) for r in recs], tags=False))
+                got = {int(ix): (int(b1), int(b2)) for ix, b1, b2 in zip(out.index, out["bin1_id"], out["bin2_id"])}
+                bad = [(recs[k], got.get(k), w) for k, w in enumerate(want) if got.get(k) != w]
+                if bad:
+                    R.mismatch("record-in-wrong-pixel:binsize", {**inner, "one_based": ob}, f"(record, got, want) = {bad[:4]}")
+                a = aggregate_records(sort=True, count=True)(out)
+                if int(a["count"].sum()) != len(recs):
+                    R.mismatch("total!=retained-records", {**inner, "one_based": ob}, f"{int(a['count'].sum())} != {len(recs)}")
+            except Exception as ex:
+                R.mismatch("valid-chunk-raises:" + type(ex).__name__, {**inner, "one_based": ob}, f"{ex!s:.300}")
+        # records just outside: position == length + (one_based) ... must be refused; (position == length itself is finding F02's territory
+        # and is judged by the records leg)
+        for bad in (("chr2", sizes["chr2"] + 1, "chr10", 0), ("chr2", 0, "chr10", sizes["chr10"] + 1)):
+            try:
+                san = sanitize_records(bdf, schema="pairs", decode_chroms=True, is_one_based=False, tril_action="reflect", sort=False, validate=True)
+                out = san(_frame([bad], tags=False))
+                if len(out):
+                    R.mismatch("out-of-range-record-accepted:binsize", {**inner, "refuse": list(bad)}, f"assigned to {out[['bin1_id', 'bin2_id']].values.tolist()}")
+            except Exception:
+                pass
+
+
 def run(unit, R, tier, only=None):
     leg = unit["leg"]
+    if leg == "binsizes":
+        _binsizes(R, unit, only)
+        return
     if leg == "tabix-sched":
         _tabix_sched(R, unit["t"], tier, only)
         return
